@@ -169,7 +169,8 @@ class InoSpec(FnSpec):
     def J(self, s):
         return [("descriptors open until released", z3.Implies(z3.Not(s["released"]), z3.And(s["open_i"], s["open_r"], s["open_w"]))),
                 ("released => closed, and all three descriptors closed", z3.Implies(s["released"], z3.And(s["closed"], z3.Not(s["open_i"]), z3.Not(s["open_r"]), z3.Not(s["open_w"])))),
-                ("a read in flight is not released under its feet", z3.Implies(s["reading"], z3.Not(s["released"])))]
+                ("a read in flight is not released under its feet", z3.Implies(s["reading"], z3.Not(s["released"]))),
+                ("closed with no read in flight => released (nobody is left to release later)", z3.Implies(z3.And(s["closed"], z3.Not(s["reading"])), s["released"]))]
 
     def rely(self, o, n):
         base = [z3.Implies(o["closed"], n["closed"]), z3.Implies(o["released"], n["released"])]
